@@ -251,12 +251,18 @@ def isDirectoryPath (ns : Bytes) : Bool :=
    | c0 :: c1 :: _ => ((65 ≤ c0 && c0 ≤ 90) || (97 ≤ c0 && c0 ≤ 122)) && c1 == 58
    | _ => false)
 
+/-- MustQuote: runes that always force quoting: `' ', '"', '\'', backquote` -/
+def mustQuoteAlways : List Nat := [32, 34, 39, 96]
+
+/-- MustQuote: runes that force quoting when `len(s) > 1`: `'(', ')', '[', ']', '{', '}', ','` -/
+def mustQuoteIfLong : List Nat := [40, 41, 91, 93, 123, 125, 44]
+
 /-- the rune loop of MustQuote: true = `return true` inside the loop -/
 def mustQuoteRunes (len : Nat) : List Nat → Bool
   | [] => false
   | r :: rest =>
-    if r == 32 || r == 34 || r == 39 || r == 96 then true
-    else if r == 40 || r == 41 || r == 91 || r == 93 || r == 123 || r == 125 || r == 44 then
+    if mustQuoteAlways.contains r then true
+    else if mustQuoteIfLong.contains r then
       if len > 1 then true else mustQuoteRunes len rest
     else if !UnicodePrint.isPrint r then true
     else mustQuoteRunes len rest
